@@ -22,17 +22,28 @@ class Gates:
         self.timeout = timeout
         self.stalled = False
         self.realised = True
+        self.over = False
         self.order = []
 
     # ---- called from worker threads ----
+    def finish(self):
+        """the batch call has returned (normally or with an exception): stop steering, let everything run"""
+        with self.cv:
+            self.over = True
+            for _, ev in self.blocked:
+                ev.set()
+            self.blocked = []
+            self.cv.notify_all()
+
     def gate(self, kind, k):
         ev = threading.Event()
         with self.cv:
+            if self.over:
+                return
             self.blocked.append(((kind, k), ev))
             self.cv.notify_all()
         if not ev.wait(self.timeout * 2):
-            self.stalled = True
-            raise MachineryError("gate timeout at %s %s" % (kind, k))
+            self.realised = False          # nobody released this gate (the controller has finished): carry on unsteered
 
     def done(self, k):
         with self.cv:
@@ -41,19 +52,28 @@ class Gates:
 
     # ---- controller thread ----
     def _settled(self):
-        return self.finished >= self.n or len(self.blocked) == min(self.w, self.n - self.finished)
+        return self.over or self.finished >= self.n or len(self.blocked) == min(self.w, self.n - self.finished)
 
     def controller(self):
         pos = 0
         while True:
             with self.cv:
-                if not self.cv.wait_for(self._settled, timeout=self.timeout):
-                    self.stalled = True
-                    for _, ev in self.blocked:
-                        ev.set()
+                waited = 0.0
+                while not self.cv.wait_for(self._settled, timeout=0.5):
+                    waited += 0.5
+                    if self.blocked:
+                        # the code under test does not follow the expected gate protocol (e.g. it synchronises a design twice):
+                        # keep it moving in arrival order -- the recorded trace is judged, not the schedule
+                        self.realised = False
+                        break
+                    if waited >= self.timeout:
+                        self.stalled = True
+                        return
+                if self.over or (self.finished >= self.n and not self.blocked):
+                    self.over = True       # from here on every gate is open (covers code that passes more gates than expected)
                     return
-                if self.finished >= self.n:
-                    return
+                if not self.blocked:
+                    continue
                 want = None
                 while pos < len(self.schedule):
                     cand = self.schedule[pos]
